@@ -43,7 +43,11 @@ func Sorter[V any]() SorterClassLike[V] {
 	default:
 		// Add a new bound class type.
 		class = &sorterClass_[V]{
-			defaultRanker_: Collator[V]().Make().RankValues,
+			// Each ranking uses a collator of its own: the sorters of a class
+			// may be used from different go-routines and a collator has state.
+			defaultRanker_: func(first V, second V) Rank {
+				return Collator[V]().Make().RankValues(first, second)
+			},
 		}
 		sorterClass[name] = class
 	}
